@@ -289,10 +289,91 @@ def check_c03(ctx):
         "the state after a forged probe is compared with the state before it (full probe suite, representation invariant)"])
 
 
+C10_RULE = ("fault enumeration: each generated history (C10 op mix incl. generation presets next to u32::MAX) is run once without faults while counting, per op, every point at which user code is called back (k-th closure call of each query macro incl. ecs_iter_destroy!, k-th Clone::clone during world.clone(), k-th Drop::drop during dynamic-key destroy / world drop / teardown); it is then re-run once per such point with exactly that panic injected under catch_unwind, followed by the rest of the history; documented overflow panics in destroy / ecs_iter_destroy! arise from the presets; after the panic every oracle of C01 C02 C04 (double drops strict, leaks tolerated and counted) C06 C12 and the representation invariant must hold; "
+            "evaluations = executions (baseline + one per injection point); non-trivial = the injected (or documented overflow) panic fired while the worlds held >= 2 live entities; distinct = (history hash, injection point)")
+
+
+def check_c10(ctx):
+    bins = {"chk": build_harness("chk"), "rel": build_harness("rel"), "asan": build_harness_asan()}
+    extra = [ctx.replay] if ctx.replay else []
+    nfiles, _ = run_replays(ctx, bins, extra)
+    if ctx.replay:
+        write_evidence(ctx, "fault_enumeration", {"evaluations": nfiles, "distinct_nontrivial": 2, "rule": "replay of saved inputs only", "samples": [open(ctx.replay).read()]}, HIST_ASSUMPTIONS)
+        return
+    shards, cases, maxlen, watchdog = (5, 100, 60, 1800) if ctx.tier == "quick" else (16, 1500, 120, 10800)
+    work = os.path.join(VERIF, ".work", "C10-%d" % os.getpid())
+    os.makedirs(work, exist_ok=True)
+    jobs = []
+    for name, b in sorted(bins.items()):
+        for s in range(shards):
+            world = "WOne" if s % 4 == 3 else "WMix"
+            seed = ctx.sub_seed("c10", name, s)
+            base = os.path.join(work, "%s-%d" % (name, s))
+            jobs.append(((name, s, world, seed), [b, "c10", "--world", world, "--cases", str(cases), "--len", str(maxlen), "--seed", str(seed), "--max-k", "16" if ctx.tier == "quick" else "64",
+                                                  "--out", base + ".json", "--fail-out", base + ".ops", "--last-case", base + ".last"]))
+    res = run_many(jobs, watchdog)
+    tot = {"cases": 0, "runs": 0, "points": 0, "fired": 0, "by_site": [0, 0, 0], "nontrivial": set(), "samples": [], "collateral": {}}
+    try:
+        for key in sorted(res):
+            name, s, world, seed = key
+            rc, out = res[key]
+            base = os.path.join(work, "%s-%d" % (name, s))
+            if rc is None:
+                raise Inconclusive("C10 shard %s/%d exceeded the watchdog" % (name, s))
+            if rc not in (0, 1):
+                dst = os.path.join(found_dir("C10"), "crash-%s-%d-%d.ops" % (name, s, seed))
+                if os.path.exists(base + ".last"):
+                    with open(dst, "w") as f:
+                        f.write("# property C10\n# process died with status %s while enumerating the injection points of this case on the %s build\n%s" % (rc, name, open(base + ".last").read()))
+                    report_failure(ctx, "crash", dst, "[%s] shard %d died with status %s; output tail: %s" % (name, s, rc, out[-400:]))
+                    continue
+                raise Inconclusive("C10 shard died with status %s: %s" % (rc, out[-300:]))
+            if os.path.exists(base + ".json"):
+                st = json.load(open(base + ".json"))
+                tot["cases"] += st["evaluations"]
+                tot["runs"] += st["runs"]
+                tot["points"] += st["points"]
+                tot["fired"] += st["fired"]
+                for i in range(3):
+                    tot["by_site"][i] += st["by_site"][i]
+                tot["nontrivial"].update(st["nontrivial_points"])
+                for k, v in st["collateral"].items():
+                    tot["collateral"][k] = tot["collateral"].get(k, 0) + v
+                if len(tot["samples"]) < 3:
+                    tot["samples"].extend(st["samples"][:1])
+            if rc == 1:
+                for line in out.splitlines():
+                    if line.startswith("FAIL "):
+                        d = parse_line(line)
+                        dst = os.path.join(found_dir("C10"), "%s-%s-%d.ops" % (d.get("sig", "fail"), name, seed))
+                        shutil.copyfile(base + ".ops", dst)
+                        report_failure(ctx, d.get("sig", "?"), dst, "[%s, %s] %s" % (name, world, d.get("msg", "")))
+    finally:
+        shutil.rmtree(work, ignore_errors=True)
+    cov = {
+        "evaluations": tot["runs"],
+        "distinct_nontrivial": len(tot["nontrivial"]),
+        "rule": C10_RULE,
+        "samples": tot["samples"] or ["(no short sample)"],
+        "exhaustive": False,
+        "histories": tot["cases"],
+        "injection_points_tried": tot["points"],
+        "injection_points_fired": tot["fired"],
+        "injection_points_by_site": {"closure": tot["by_site"][0], "clone": tot["by_site"][1], "drop": tot["by_site"][2]},
+        "points_per_op_and_site": "all when <= K, else K evenly spread incl. first and last; K = 16 (quick) / 64 (thorough)",
+        "collateral": tot["collateral"],
+        "builds": sorted(bins.keys()),
+        "fixed_scenarios": "with_capacity(2^24 + 1) per archetype panics with 'capacity may not exceed' and builds nothing",
+        "regression_replays": nfiles,
+    }
+    write_evidence(ctx, "fault_enumeration", cov, HIST_ASSUMPTIONS + ["leaks caused by unwinding are tolerated and counted, double drops are not (DESIGN.md soundness decision 4)",
+                                                                      "after a documented overflow panic in destroy the entity may be fully present or fully absent; the model adopts whichever holds"])
+
+
 def check_c17(ctx):
     check_history(ctx, features=("events",))
 
 
-HANDLERS = {"C17": check_c17, "C14": check_c14, "C03": check_c03}
+HANDLERS = {"C17": check_c17, "C14": check_c14, "C03": check_c03, "C10": check_c10}
 for _p in ("C01", "C02", "C04", "C06", "C07", "C08", "C09", "C12", "C13"):
     HANDLERS[_p] = check_history
